@@ -190,6 +190,7 @@ def run_one(choices, params):
             if left:
                 raise core.Violation("callback-left", "responses dispatched but callbacks still registered for seqs %r" % (left,))
             # ---- liveness (known-finding aware) ------------------------------------------------------------
+            spy.check_missed()
             for cls, tainted, detail, where in problems:
                 if tainted:
                     info["known"].append(cls)
